@@ -44,7 +44,7 @@ WirePage == {
   <<"hd_oversize_line_nonl", "h_hdr_readline", "ValueError">>, <<"hd_oversize_total", "h_status_parse", "ProtocolError">>,
   <<"hd_no_colon", "none", "none">>, <<"hd_nul", "none", "none">>, <<"hd_high_bytes", "none", "none">>,
   <<"hd_fold_first", "none", "none">>, <<"hd_dup_content_length", "none", "none">>, <<"hd_empty_name", "none", "none">>,
-  <<"hd_many", "none", "none">>, <<"hd_bare_cr", "none", "none">>, <<"hd_utf8_bom", "h_status_parse", "ProtocolError">>,
+  <<"hd_many", "none", "none">>, <<"hd_bare_cr", "none", "none">>, <<"hd_utf8_bom", "h_status_parse", "ProtocolError">>, <<"ck_flood_new_path", "none", "none">>, <<"ck_flood_same_path", "none", "none">>, <<"ck_odd", "none", "none">>,
   \* Content-Length
   <<"cl_negative", "h_content_length_parse", "ValueError">>, <<"cl_alpha", "h_content_length_parse", "ValueError">>,
   <<"cl_empty", "h_content_length_parse", "ValueError">>, <<"cl_float", "h_content_length_parse", "ValueError">>,
